@@ -755,7 +755,7 @@ pub fn decode(file: &[u8]) -> Result<Decoded, String> {
     scene.coord_meta = cx.opt_string(&root, "coordinateMetadata");
     scene.creation = cx.opt_dt(&root, "creationDateTime");
     for (p, u) in &root.ns_decls {
-        if !p.is_empty() {
+        if !p.is_empty() && u != E57_NS {
             scene.extensions.push((p.clone(), u.clone()));
         }
     }
